@@ -60,6 +60,31 @@ func init() {
 		},
 	})
 	register(&Property{
+		ID: "C17",
+		Explanation: "Decides structural conditions of the JSON renderings: (R1) no type assertion in the rendering code is impossible or unguarded (a value whose every reaching definition has another dynamic type panics on every call); (R2) Match.MarshalJSON/Range.MarshalJSON emit exactly the documented keys, each from the like-named field, `replacement` control-dependent on Replacement.HasValue() only; (R3) every static type flowing into json.Marshal is JSON-safe (type closure through MakeInterface producers) and every MarshalJSON returns bytes produced by encoding/json; (R4) Json and FormattedJson marshal the receiver itself. " +
+			"Does NOT decide encoding/json itself nor round-trip equality of values.",
+		Assumptions: append([]string{"encoding/json produces valid JSON for JSON-safe Go values and escapes arbitrary text"}, commonAssumptions...),
+		Rules: []RuleFn{
+			{Name: "C17.R1", Run: func(c *Ctx) { ruleTypeAssertions(c, "C17.R1", []string{"engine", "ds"}, 1) }},
+			{Name: "C17.R2", Run: func(c *Ctx) { ruleJSONShape(c, "C17.R2") }},
+			{Name: "C17.R3", Run: func(c *Ctx) { ruleJSONMarshalSafe(c, "C17.R3") }},
+			{Name: "C17.R4", Run: func(c *Ctx) { ruleJSONRenderings(c, "C17.R4") }},
+		},
+	})
+	register(&Property{
+		ID: "C18",
+		Explanation: "Decides structural conditions of the command-line tool in package main: (R1) every os.OpenFile used for the JSON output files has a write access mode and permission bits; (R2) on every path of main.main that can continue to the statement printing the JSON document, no other call may write to standard output (call graph closure over fmt.Print*/os.Stdout; exempt: calls control-dependent on -debug, the user-requested debug statement, paths cut by os.Exit/log.Fatal/return or by contradictory flag conditions); (R3) every failure exit has a non-zero status and cannot execute after RunFiles; (R4) the -replace-mode table (partial evaluation of replaceMode) and the NEW default; (R5) the documented flags are registered with the documented kinds. " +
+			"Does NOT decide the process-level behaviour of the built binary (exit status, bytes on stdout).",
+		Assumptions: append([]string{"flag.PrintDefaults, log.Fatal and the builtin println write to standard error"}, commonAssumptions...),
+		Rules: []RuleFn{
+			{Name: "C18.R1", Run: func(c *Ctx) { ruleCLIOpenForWriting(c, "C18.R1") }},
+			{Name: "C18.R2", Run: func(c *Ctx) { ruleCLIStdout(c, "C18.R2") }},
+			{Name: "C18.R3", Run: func(c *Ctx) { ruleCLIExits(c, "C18.R3") }},
+			{Name: "C18.R4", Run: func(c *Ctx) { ruleCLIModeTable(c, "C18.R4") }},
+			{Name: "C18.R5", Run: func(c *Ctx) { ruleCLIFlags(c, "C18.R5") }},
+		},
+	})
+	register(&Property{
 		ID: "C19",
 		Explanation: "Decides data-race freedom of concurrent Compile/Run calls for this code base by ownership: (R1) no package-level variable is " +
 			"accessed without synchronisation by code reachable from Compile/CompileFile/(*Vore).Run/RunFiles; (R2/R3) run-time code never stores into the " +
